@@ -13,6 +13,8 @@ THEOREMS = [
     ('EAO.Properties.C18', 'EAO.C18.lagrangian_affine', 'the bound is affine in a row\'s right-hand side with slope the row\'s multiplier'),
     ('EAO.Properties.C18', 'EAO.C18.price_supergradient', 'for multipliers carrying minus the reported prices on the nodal rows: every point feasible after an injection d at a (node, step) has value <= V + price*d + gap, gap = exact Lagrangian gap of the reported optimum'),
 ]
+from ..comp import pricesplit as PS
+THEOREMS = THEOREMS + PS.THEOREMS_C18_SPLIT
 COMPONENTS = ['nodalPrices vs io.extract_output["prices"]', 'assemble nodal record', 'exact Lagrangian gap of the reported price table (driver op lagrangian)',
               'nodal record: as many rows of type N as entries of map_nodal_restr, all after the last asset row (else duals[N] cannot be read along the record)']
 RULE = ('random LP portfolios (no booleans), plus a stream of portfolios with MIXED discount rates (some assets wacc = 0, some not, list order shuffled) on horizons of 10-40 steps of up to a day, '
@@ -219,6 +221,11 @@ def scenarios(seed, tier):
             s['solver'] = r.choice(['SCIPY', 'CLARABEL'])
         s['inject'] = draw_injections(r, r.randint(2, 3))
         yield 'struct%d' % i, s
+    # the price table of split runs against the model of the split read-out; lagrangian_block_sum evaluated exactly on the real
+    # interval problems; re-optimisation of single intervals with a perturbed nodal right-hand side (comp/pricesplit.py)
+    _rps = random.Random(seed * 104729 + 1818)
+    for i in range(60 if tier == 'quick' else 400):
+        yield 'ps%d' % i, {'_stream': 'pricesplit', 'case': PS.gen_case(random.Random(_rps.getrandbits(48)))}
 
 
 def multipliers(op, res, prices_by_pair):
@@ -285,6 +292,10 @@ def rebuilt_value(rec, node, t, d, solver=None):
 
 
 def run_case(scn, drv):
+    if isinstance(scn, dict) and scn.get('_stream') == 'pricesplit':
+        st, ri = PS.run_case(scn['case'], drv)
+        return {'evaluated': 1, 'nontrivial': st.get('status') == 'ok' and st.get('intervals', 0) > 1, 'features': ['stream:pricesplit', 'status:' + str(st.get('status'))],
+                'disagreements': [{'component': 'split price table', 'detail': d} for d in st['disagreements']], 'violations': st['violations']}
     r = {'evaluated': 1, 'nontrivial': False, 'features': [], 'disagreements': [], 'violations': []}
     feats = r['features']
     for a in scn['assets']:
